@@ -82,21 +82,27 @@ def main(argv=None):
     if (args.build == "cy") != is_so:
         raise SystemExit("HARNESS-ERROR: build %s but scheduler at %s" % (args.build, asynq.scheduler.__file__))
 
+    # the per-case limit is CPU time of this process (a spinning scheduler burns it; a machine
+    # that is merely overloaded does not); a tenfold wall-clock limit backs it up for a case
+    # that blocks without using the CPU
     signal.signal(signal.SIGALRM, _alarm)
+    signal.signal(signal.SIGPROF, _alarm)
     known = [k for k in load_known(os.path.join(os.path.dirname(os.path.dirname(os.path.abspath(__file__))), "KNOWN_FINDINGS.txt"))
              if k["property"] == args.prop]
 
-    hang_result = {"violations": [("hang", "the computation did not terminate within %d s of wall time" % args.case_timeout)],
+    hang_result = {"violations": [("hang", "the computation did not terminate within %d s of CPU time" % args.case_timeout)],
                    "stats": {}, "sig": "hang", "nontrivial": True, "digest": "hang"}
 
     def run_case(case, timeout=None):
         TIMED["out"] = False
-        signal.setitimer(signal.ITIMER_REAL, timeout or args.case_timeout, 1.0)
+        signal.setitimer(signal.ITIMER_PROF, timeout or args.case_timeout, 1.0)
+        signal.setitimer(signal.ITIMER_REAL, 10 * (timeout or args.case_timeout), 1.0)
         try:
             r = P.run(case, args.build)
         except CaseTimeout:
             return dict(hang_result)
         finally:
+            signal.setitimer(signal.ITIMER_PROF, 0)
             signal.setitimer(signal.ITIMER_REAL, 0)
         if TIMED["out"]:
             return dict(hang_result)
